@@ -122,6 +122,8 @@ def run(ctx):
             ctx.sample({'case': case, 'rex': rexes, 'other_tagging': orex})
     M.compare_with_model(ctx, cases)
     M.check_oracle_hypotheses(ctx, cases)
+    M.check_regex_model(ctx, cases)
+    M.check_oracle_hypotheses(ctx, cases)
     ctx.cov['rule'] = ('as C03 (multisets x options x dialect x Size x seed) plus empty inputs; every run is repeated with '
                        'tagging flipped and both results are compared on the examples and on near-miss probe strings')
     ctx.assumptions += ['re.compile / re.match of CPython decide validity and matching']
